@@ -303,6 +303,7 @@ def value_for(ctx, target, pname, kind, sofar):
 
 def resolve(target):
     mod, qual = target.split(':')
+    qual = qual.split('@')[0]
     m = importlib.import_module(mod)
     if target == 'penman.surface:AlignmentMarker.from_string':
         # the class method is exercised through both concrete marker classes
@@ -372,7 +373,9 @@ def sweep(targets, n, seed, sidecar):
     out = {'evaluations': 0, 'skipped': 0, 'per_target': {}, 'failures': [], 'unsupported': {}}
     for target in targets:
         c = sidecar.contracts.get(target)
-        if c is None or c.options.get('view') or '@' in target or any(k == 'obj' for _, k in c.params):
+        if c is None or c.options.get('view') or any(k == 'obj' for _, k in c.params):
+            continue
+        if '@' in target and not target.endswith('@functional'):
             continue
         modname = 'contracts.' + c.file[:-3]
         if modname not in cmods:
